@@ -146,14 +146,18 @@ def run_case(case):
                   if not (order == "displaced" and mss == 9)]
         # records sharing segments: consecutive writes of one direction merged, cut at sizes unrelated to record sizes
         combos += [(v6, mss, "merged") for v6 in (False, True) for mss in (1460, 333, 77)]
+        combos += [(False, 400, "duplex"), (True, 211, "duplex")]
         for v6, mss, order in combos:
             scn = {"version": v, "suite": code, "etm": etm, "hs_secrets": hs,
                    "history": [("c", 0), ("c", 130), ("s", 420), ("s", 17), ("c", 260), ("s", 1)]}
-            if order == "merged":
+            if order in ("merged", "duplex"):
                 scn["history"] = [("c", 0), ("c", 130), ("c", 5), ("s", 420), ("s", 17), ("s", 300), ("s", 40), ("c", 260), ("c", 90), ("s", 1)]
-            f1 = scen.tls_flow(scn, seed, 3, v6=v6, mss=mss, merged=(order == "merged"))
+            f1 = scen.tls_flow(scn, seed, 3, v6=v6, mss=mss, merged=(order in ("merged", "duplex")))
             f2 = scen.tls_flow(dict(scn, history=[("s", 33), ("s", 5), ("c", 250), ("c", 7), ("c", 600)]), seed, 4, v6=not v6, mss=mss,
-                               key=("second",), merged=(order == "merged"))
+                               key=("second",), merged=(order in ("merged", "duplex")))
+            if order == "duplex":
+                for f in (f1, f2):
+                    f.pkts[:] = scen.duplex_interleave(f.pkts, scen.first_app_packet(f.conn, f.pkts))
             if order == "displaced":
                 # every other non-first data segment that is directly followed by a segment of its own direction is captured
                 # after that successor, so neighbouring segments meet in the reassembly buffer
